@@ -12,7 +12,7 @@ CONSTANTS
   Grows = {}
   NopKinds = {"1", "4", "u"}
   VariantSet = "uninit"
-  Rotate = 0
+  Rotate = 2
   Emit = TRUE
 INVARIANT Inv
 CHECK_DEADLOCK FALSE
